@@ -755,6 +755,13 @@ func (e *Engine) MessageReceived(ctx context.Context, p peer.ID, m bsmsg.BitSwap
 	e.lock.Lock()
 
 	if m.Full() {
+		// A full wantlist replaces everything the peer asked for before:
+		// drop the responses that are still queued for the old wantlist.
+		if topics := e.peerRequestQueue.PeerTopics(p); topics != nil {
+			for _, topic := range topics.Pending {
+				e.peerRequestQueue.Remove(topic, p)
+			}
+		}
 		e.peerLedger.ClearPeerWantlist(p)
 	}
 
